@@ -337,6 +337,49 @@ func (f *filler) fill(v reflect.Value, top bool) {
 		for i := 0; i < n; i++ {
 			f.fill(s.Index(i), false)
 		}
+		// near-duplicates: an element that equals its predecessor except in one leaf (two lock
+		// ranges of one process that differ only in the high half of an offset, or only in a pad)
+		if f.mode == ModeRandom && t.Elem().Kind() == reflect.Struct && n >= 2 && f.rng.IntN(3) == 0 {
+			for i := 1; i < n; i++ {
+				if f.rng.IntN(2) == 0 {
+					continue
+				}
+				s.Index(i).Set(s.Index(i - 1))
+				var leaves []reflect.Value
+				var walk func(x reflect.Value)
+				walk = func(x reflect.Value) {
+					switch x.Kind() {
+					case reflect.Uint8, reflect.Uint16, reflect.Uint32, reflect.Uint64, reflect.Int8, reflect.Int16, reflect.Int32, reflect.Int64:
+						if x.CanSet() {
+							leaves = append(leaves, x)
+						}
+					case reflect.Struct:
+						if x.Type().Name() == "SMB_STRING" || x.Type().Name() == "SMB_DATE" || x.Type().Name() == "SMB_DIRECTORY_INFORMATION" || x.Type().Name() == "SMB_RESUME_KEY" {
+							return // their fields are tied to one another
+						}
+						for k := 0; k < x.NumField(); k++ {
+							if x.Type().Field(k).IsExported() {
+								walk(x.Field(k))
+							}
+						}
+					case reflect.Array:
+						for k := 0; k < x.Len(); k++ {
+							walk(x.Index(k))
+						}
+					}
+				}
+				walk(s.Index(i))
+				if len(leaves) > 0 {
+					l := leaves[f.rng.IntN(len(leaves))]
+					switch l.Kind() {
+					case reflect.Uint8, reflect.Uint16, reflect.Uint32, reflect.Uint64:
+						l.SetUint((l.Uint() + 1 + uint64(f.rng.IntN(3))) & (1<<uint(l.Type().Bits()) - 1 | 1<<63>>uint(64-l.Type().Bits())))
+					default:
+						l.SetInt(^l.Int())
+					}
+				}
+			}
+		}
 		v.Set(s)
 	case reflect.Struct:
 		for i := 0; i < t.NumField(); i++ {
